@@ -46,6 +46,16 @@ FifoLoadOk(e) == e.file = e.fifo
 (* C05 at the command line: whatever the size of the input, `lace check` ends with a verdict (0 or 1), never by a signal or a panic *)
 CliTotalOk(e) == e.code \in {0, 1}
 
+(* C16 at the command line: a finite script and a command stream that ends (or cannot be read): the session ends *)
+EndsOk(e) == e.ended
+
+(* C17, the breakpoint table: one row per breakpoint; its text cell shows the statement's text, cut after 26 characters with an ellipsis *)
+CellOf(t) == IF Len(t) <= 26 THEN t ELSE SubSeq(t, 1, 26) \o << "…" >>
+BpTableOk(e) ==
+  /\ e.code = 0
+  /\ Len(e.rows) = Len(e.stmts)
+  /\ \A i \in 1 .. Len(e.stmts) : e.rows[i][1] = e.stmts[i][1] /\ e.rows[i][2] = CellOf(e.stmts[i][2])
+
 (* ---- C06: compile output, loader ---- *)
 CompileOk(e) ==
   IF Accepts(e.ast, e.stack)
@@ -114,6 +124,8 @@ GateOk(e) ==
   /\ (e.uses /\ ~e.stack => e.code # 0 /\ e.code # 101 /\ e.names)
   /\ (e.uses /\ e.stack => e.code = 0)
   /\ (~e.uses => e.code = 0 /\ e.same)
+(* opcode 0xD reached at run time without the flag: exit status 1 and a message naming the feature - whatever stdout is connected to *)
+GateRunOk(e) == e.code = 1 /\ e.names
 (* the value of -f/--features: comma separated, empty items skipped, only "stack", not twice *)
 RECURSIVE SplitComma(_, _, _)
 SplitComma(s, cur, acc) ==
@@ -142,11 +154,16 @@ DispatchOk(e) ==
 
 (* a re-check of `lace watch` reports what `lace check` would (C07); "none" = no re-check was   *)
 (* observed in time (file-system event not delivered) - recorded, never counted as agreement     *)
-WatchOk(e) == e.seen \in {"none", IF e.valid THEN "success" ELSE "error"}
+(* and it prints the warnings a fresh `lace check` of the same text prints (C19: nothing is remembered from earlier re-checks)              *)
+WatchOk(e) == /\ e.seen \in {"none", IF e.valid THEN "success" ELSE "error"}
+              /\ e.fresh_ok = e.valid
+              /\ (e.seen # "none" => e.warnings = e.fresh_warnings)
 
 Explains(e) ==
   CASE e.ev = "transport" -> TransportOk(e)
     [] e.ev = "xport"     -> XportOk(e)
+    [] e.ev = "bptable"   -> BpTableOk(e)
+    [] e.ev = "ends"      -> EndsOk(e)
     [] e.ev = "clitotal"  -> CliTotalOk(e)
     [] e.ev = "ttyin"     -> TtyInOk(e)
     [] e.ev = "fifoload"  -> FifoLoadOk(e)
@@ -163,6 +180,7 @@ Explains(e) ==
     [] e.ev = "atomic"    -> AtomicOk(e)
     [] e.ev = "compile_sys" -> SysOk(e)
     [] e.ev = "gate"      -> GateOk(e)
+    [] e.ev = "gate_run"  -> GateRunOk(e)
     [] e.ev = "featarg"   -> FeatArgOk(e)
     [] OTHER -> FALSE
 
